@@ -24,6 +24,9 @@ def gen_torrent(rng, tag, tier, version=None, allow_dup_names=True):
     if single:
         size, _ = gen.pick_size(rng, B, pl, allow_empty=False, big=False)
         files = [(rng.choice(FNAMES) + tag, gen.pick_blob(rng, size))]
+        if rng.random() < 0.2:
+            # one piece whose digest is valid UTF-8 (decoders that return text hand it back as str)
+            files = [(files[0][0], Blob.hexb(gen.UTF8_DIGEST[0 if version == 1 else rng.randrange(2)]))]
     else:
         n = rng.choice([1, 2, 3, 3, 4, 5])
         paths = set()
